@@ -52,6 +52,10 @@ func (s *Mut) Apply(st *state.StateDB, op string, idx int) (ob string, ok bool) 
 			nv.SetInt64(0) // wraps through deletion of the slot
 		}
 		st.SetState(Acc[0], Slots[0], common.BigToHash(nv))
+	case "store7(A0)": // write the value the slot has in the committed base state
+		st.SetState(Acc[0], Slots[0], common.BigToHash(big.NewInt(7)))
+	case "store0(A0)": // clear the slot
+		st.SetState(Acc[0], Slots[0], common.Hash{})
 	case "code(A1)":
 		st.SetCode(Acc[1], append(st.GetCode(Acc[1]), 0x01))
 	case "suicide(A0)":
@@ -161,6 +165,13 @@ func (s *Mut) Apply(st *state.StateDB, op string, idx int) (ob string, ok bool) 
 		}
 		st.RemoveWithdrawRecords([]int{0, n - 1})
 
+	case "statreward": // staking.rewardsToPool pattern: reward pools / residue edited in place on the cached statistics
+		stat, err := st.GetValidatorsStat()
+		if err != nil {
+			return "err", true
+		}
+		stat.GetByRole(params.RoleHouse).AddRewards(big.NewInt(5))
+		stat.GetByKind(params.KindValidator).SetRewardsResidue(big.NewInt(int64(3 + idx)))
 	case "srec(V1)": // handleCreate / handleDeposit pattern: pending record for validator V1
 		s.SNonce++
 		st.AddStakingRecord(common.Address{}, ValAddr[1], common.BigToHash(big.NewInt(1000+s.SNonce)), Tok(s.SNonce, 1))
